@@ -85,3 +85,20 @@ Proof.
   unfold ex_block. repeat (apply wn_mut; [reflexivity|]).
   apply (wn_pair 4 [OSet 5 (VInt 9)] [ORead 1 2 (-1)%Z]); repeat (apply wn_mut; [reflexivity|]); constructor.
 Qed.
+
+(* ... with a container that holds mutable containers (`{"load": [], "store": []}`, `[["root"]]`): the copy a push hands out is DEEP - an
+   in-place change of an inner list at one level (OAppendIn) shows neither in the value later pushes reset the field to nor in the saved frames *)
+Definition ex_nest : list item := [DStack 1 [DField 2 (VNest 0 [[1%Z]; []]) None]].
+Definition ex_nest_block : list op := [OAppendIn 2 0 9%Z; OPush 1; OAppendIn 2 1 5%Z; ORead 1 2 (-1)%Z; OPop 1; ORead 1 2 (-1)%Z].
+Example C20_nested_nonvacuous :
+  wf (init_decls ex_nest) /\ wn ex_nest_block /\
+  snd (run (init_decls ex_nest) (init_mgr ex_nest) (OPush 1 :: ex_nest_block ++ [OPop 1])) =
+    [Done; Done; Done; Done; OutVal (VNest 0 [[1%Z; 9%Z]; []]); Done; OutVal (VNest 0 [[1%Z]; []]); Done] /\
+  dget (fst (run (init_decls ex_nest) (init_mgr ex_nest) (OPush 1 :: ex_nest_block))) 2 = Some (VNest 0 [[1%Z; 9%Z]; []]) /\
+  dget (fst (run (init_decls ex_nest) (init_mgr ex_nest) [OPush 1; OAppendIn 2 0 9%Z; OPush 1])) 2 = Some (VNest 0 [[1%Z]; []]).
+Proof.
+  split; [apply wf_b_sound; vm_compute; reflexivity|].
+  split; [|repeat split; vm_compute; reflexivity].
+  unfold ex_nest_block. apply wn_mut; [reflexivity|].
+  apply (wn_pair 1 [OAppendIn 2 1 5%Z; ORead 1 2 (-1)%Z] [ORead 1 2 (-1)%Z]); repeat (apply wn_mut; [reflexivity|]); constructor.
+Qed.
